@@ -8,7 +8,7 @@ ENGINES = [
      "kind_free_text": "exhaustive enumeration inside a package of the repository that cannot be imported (cmd/wasp, package main): the harness test file is compiled into that package through a go test -overlay, /repo itself is not touched"},
     {"name": "E3-crashx", "path": "e3", "serves_properties": ["C15"],
      "kind_free_text": "crash-point enumeration with real child processes killed by SIGKILL at verif-tag hook points in wasp/messages/store.go, restarted on the same directory"},
-    {"name": "E2-brokermc", "path": "e2", "serves_properties": ["C01", "C02", "C03", "C05", "C07", "C11", "C12", "C13", "C14", "C16", "C17", "C18"],
+    {"name": "E2-brokermc", "path": "e2", "serves_properties": ["C01", "C02", "C03", "C04", "C05", "C06", "C07", "C11", "C12", "C13", "C14", "C16", "C17", "C18"],
      "kind_free_text": "complete 1-3 node broker wired in-process like cmd/wasp/main.go inside a Go 1.26 testing/synctest bubble (virtual time, exact quiescence); DFS over enumerated environment-event sequences, each path replayed from a fresh world in crash-contained worker processes"},
     {"name": "E1-seqx", "path": "e1", "serves_properties": ["C01", "C04", "C06", "C07", "C08", "C09", "C10", "C16", "C19"],
      "kind_free_text": "explicit-state BFS to fixpoint / exhaustive bounded operation sequences on the real data structures, in lock-step with a Go reference model"},
@@ -118,6 +118,8 @@ PHASES = {
         {"pkg": "e1", "test": "TestC04TimerList", "phase": "C04/timer-list-sequences"},
         {"pkg": "e4", "test": "TestC20Schedules", "phase": "C04/schedules",
          "env": {"VERIF_E4_PROPERTY": "C04", "VERIF_E4_FILTER": "ack.Queue,pqList,skipList"}},
+        # the whole broker: an exchange in flight for one session while another session ends
+        {"pkg": "e2", "test": "TestC04OtherSessionEnds", "phase": "C04/other-session-ends"},
     ],
     "C06": [
         {"pkg": "e1", "test": "TestC06Pool", "phase": "C06/allocator-states"},
